@@ -694,6 +694,15 @@ class C15(Prop):
                         other += ['add o [ ] %s -' % x for x in nms[3:]]
                     else:
                         other += ['add o [ ] %s -' % x for x in nms]
+                    if nms and rnd.random() < 0.35:
+                        # the other complex also uses a name that looks like the decoration of a shared one
+                        ords_ = {}
+                        for l_ in other[1:]:
+                            t_ = l_.split(); ords_[t_[-2]] = max(0, len(t_) - 7)
+                        x_ = rnd.choice(nms)
+                        look = '%s->%dd1' % (impl.parse_name(x_), ords_.get(x_, 0))
+                        if tok(look) not in pool_names:
+                            other.append('add o [ ] %s -' % tok(look))
                     lines += other
                     req = 'relabeldisj a o'
                 lines += ['check c15-pre a ' + req, req, 'check c15-post a', 'snap a']
